@@ -759,6 +759,10 @@ impl StorageEngine {
 
     /// Add a member with score to a sorted set - NO access time tracking
     pub fn zadd(&self, db: DatabaseIndex, key: Key, member: Vec<u8>, score: f64) -> Result<bool> {
+        // NaN has no place in the order of a sorted set (and a NaN node could never be unlinked again)
+        if score.is_nan() {
+            return Err(CommandError::Generic("value is not a valid float".into()).into());
+        }
         let shard = self.get_shard(db, &key)?;
         let mut shard_guard = shard.write().unwrap();
         
@@ -957,6 +961,9 @@ impl StorageEngine {
     }
     
     pub fn zincrby(&self, db: DatabaseIndex, key: Key, member: Vec<u8>, increment: f64) -> Result<f64> {
+        if increment.is_nan() {
+            return Err(CommandError::Generic("value is not a valid float".into()).into());
+        }
         let shard = self.get_shard(db, &key)?;
         let mut shard_guard = shard.write().unwrap();
         
@@ -967,6 +974,9 @@ impl StorageEngine {
                         Some(curr_score) => curr_score + increment,
                         None => increment,
                     };
+                    if new_score.is_nan() {
+                        return Err(CommandError::Generic("resulting score is not a number (NaN)".into()).into());
+                    }
                     
                     skiplist.insert(member, new_score);
                     shard_guard.mark_modified(&key);
